@@ -68,7 +68,7 @@ Event(id, exec, state, data, branch, retry) ==
      retry |-> retry, red |-> FALSE]
 
 FreshEng == [up |-> TRUE, held |-> {}, bm |-> <<>>, pending |-> <<>>, cancellers |-> <<>>,
-             orphaned |-> <<>>, timers |-> {}, scan |-> FALSE]
+             orphaned |-> <<>>, timers |-> {}, scan |-> FALSE, aged |-> FALSE]
 NoFr == [trig |-> <<>>, exec |-> 0, acked |-> FALSE, cause |-> ""]
 
 (* ---- operations ------------------------------------------------------------ *)
@@ -425,6 +425,9 @@ HandleReply(x, m) ==
              x3 == OnResponse(x2, p.id, p.ev, res)
          IN Emit(x3, AckOp(m.id))
     ELSE IF m.corr \in DOMAIN x.e.orphaned THEN x       \* (a second orphan for the same id: not modelled)
+    (* an instance that has been up for longer than the retention period does not park a reply without a request:
+       it logs and acknowledges it at once *)
+    ELSE IF x.e.aged THEN Emit(x, AckOp(m.id))
     ELSE [x EXCEPT !.e.orphaned = Upd(@, m.corr, m),
                    !.e.timers = @ \cup {[kind |-> "retention", id |-> m.corr, ev |-> m, red |-> FALSE]}]
 
@@ -510,6 +513,8 @@ FrameTimer(kind, id) ==
                        THEN Emit([x0 EXCEPT !.e.orphaned = Del(@, t.id)], AckOp(t.ev.id))
                        ELSE x0
        IN /\ (kind = "tasktimeout" => Silent(t))
+          (* these timers are armed for at least the retention period: when they fire the instance has aged *)
+          /\ (kind \in {"retention", "tasktimeout"} => eng.aged)
           /\ fr' = [trig |-> t.id, exec |-> IF kind = "retention" THEN 0 ELSE t.ev.exec, acked |-> FALSE, cause |-> kind]
           /\ eng' = x.e /\ ops' = x.o
     /\ UNCHANGED <<queues, unacked, rec, notes, hist, inv, crashes, bad>>
@@ -581,6 +586,16 @@ Restart ==
     /\ ~Up /\ eng' = FreshEng
     /\ UNCHANGED <<queues, unacked, ops, fr, rec, notes, hist, inv, crashes, bad>>
 
+(* time passes: the instance has now been up for longer than the orphan retention period (the model has no clock;
+   this is the one fact about elapsed time that the handlers look at) *)
+Age ==
+    /\ Up /\ Idle /\ ~eng.aged
+    (* an engine that has something to deliver or a deferred handler to run does so before seconds pass *)
+    /\ \A q \in EngineQueues : queues[q] = <<>>
+    /\ ~\E t \in eng.timers : t.kind = "delegate"
+    /\ eng' = [eng EXCEPT !.aged = TRUE]
+    /\ UNCHANGED <<queues, unacked, ops, fr, rec, notes, hist, inv, crashes, bad>>
+
 IdSpace == UNION {{t.id : t \in eng.timers}}
 
 (* the periodic scan of the orphaned replies (handle_orphaned_responses) *)
@@ -598,6 +613,7 @@ Next ==
     \/ \E kind \in TimerKinds : \E id \in IdSpace : FrameTimer(kind, id)
     \/ FrameScan
     \/ DoOp
+    \/ Age
     \/ \E f \in Fns : Worker(f)
     \/ Crash
     \/ Restart
